@@ -119,6 +119,7 @@ func runC15(p *core.Prog, r *core.Report) {
 	c15R3(p, r)
 	c15R4(p, r)
 	c15R5(p, r, pats)
+	c15R6(p, r)
 }
 
 // capture returns the sub-expression of capture group k.
@@ -610,5 +611,52 @@ func leftmost(bo *ssa.BinOp) ssa.Value {
 			return v
 		}
 		v = b.X
+	}
+}
+
+// ---------------------------------------------------------------------------------------------
+// R6 the printed form carries the fields as they are stored
+
+func c15R6(p *core.Prog, r *core.Report) {
+	const rule = "C15.R6"
+	r.Rule(rule, "CommonName prints the stored fields unchanged: no field of the reference is passed through a string-rewriting function (trim, clean, case folding, replace, escape) on its way into the printed form; the parsers store what they match, so any rewriting on the way out is lost information and the printed form no longer parses back to the same reference", 1)
+	ref := p.Named("types/ref", "Ref")
+	if ref == nil {
+		r.MissingAnchor(rule, "types/ref.Ref")
+		return
+	}
+	fn := p.MethodOf(ref, "CommonName")
+	if fn == nil {
+		r.MissingAnchor(rule, "types/ref.(Ref).CommonName")
+		return
+	}
+	rewriting := map[string]bool{"strings": true, "path": true, "path/filepath": true, "net/url": true, "unicode": true, "bytes": true, "regexp": true}
+	fields := []string{"Path", "Registry", "Repository", "Tag", "Digest", "Scheme"}
+	lab := labeler{}
+	n := 0
+	core.Calls(fn, func(c ssa.CallInstruction) {
+		cal := core.Callee(c)
+		if cal == nil || cal.Pkg() == nil || !rewriting[cal.Pkg().Path()] {
+			return
+		}
+		sig, _ := cal.Type().(*types.Signature)
+		if sig == nil || sig.Results().Len() == 0 {
+			return
+		}
+		if b, ok := sig.Results().At(0).Type().Underlying().(*types.Basic); !ok || b.Kind() != types.String {
+			return
+		}
+		for _, a := range c.Common().Args {
+			for _, f := range fields {
+				if dependsOnField(a, modPath("types/ref"), "Ref", f) {
+					n++
+					r.Violated(rule, p.FuncName(fn), lab.next("field "+f+" rewritten by "+cal.Pkg().Name()+"."+cal.Name()), p.Pos(c.Pos()),
+						"the printed form of the reference is computed from a rewritten "+f+"; New(CommonName()) then differs from the reference for the inputs the rewriting changes")
+				}
+			}
+		}
+	})
+	if n == 0 {
+		r.Held(rule, p.FuncName(fn), "fields printed as stored", p.Pos(fn.Pos()), "no string-rewriting call takes a field of the reference")
 	}
 }
